@@ -6,6 +6,7 @@ package main
 
 import (
 	"bytes"
+	"encoding/json"
 	"flag"
 	"fmt"
 	"go/ast"
@@ -63,9 +64,45 @@ func load(repo, rel, name string) *pkg {
 	return &pkg{fset: fset, files: files, info: info, tpkg: tp, dir: dir}
 }
 
+// extractFailure is what fatal throws: a generator that cannot read the construct it translates.
+type extractFailure struct{ msg string }
+
+// fatal aborts the current generator (see runGen). The other generators still run, the modules of
+// the failed one keep their previous content, and ./check treats the failure as a broken tie for
+// the properties that import those modules.
 func fatal(f string, a ...interface{}) {
-	fmt.Fprintf(os.Stderr, "extract: "+f+"\n", a...)
-	os.Exit(1)
+	panic(extractFailure{fmt.Sprintf(f, a...)})
+}
+
+type genFailure struct {
+	Generator string   `json:"generator"`
+	Modules   []string `json:"modules"`
+	Message   string   `json:"message"`
+}
+
+var failures []genFailure
+
+// runGen runs one generator; mods are the Gen modules it is responsible for.
+func runGen(name string, mods []string, fn func()) {
+	defer func() {
+		if r := recover(); r != nil {
+			msg := fmt.Sprint(r)
+			if ef, ok := r.(extractFailure); ok {
+				msg = ef.msg
+			}
+			failures = append(failures, genFailure{name, mods, msg})
+			fmt.Printf("TRANSLATOR-FAILURE %s [%s]: %s\n", name, strings.Join(mods, ","), strings.ReplaceAll(msg, "\n", " "))
+			for _, m := range mods {
+				// keep whatever an earlier run generated
+				matches, _ := filepath.Glob(filepath.Join(outDir, m+"*.lean"))
+				for _, f := range matches {
+					rel, _ := filepath.Rel(outDir, f)
+					emitted[rel] = true
+				}
+			}
+		}
+	}()
+	fn()
 }
 
 func (p *pkg) constInt(name string) int64 {
@@ -207,10 +244,13 @@ func main() {
 	}
 	imp = importer.ForCompiler(token.NewFileSet(), "source", nil)
 
-	root := load(*repo, "", "libaudit")
-	genConsts(root)
-	for _, g := range generators {
-		g(*repo, root)
+	var root *pkg
+	runGen("load", []string{"Consts", "ClientConsts", "LockFacts"}, func() { root = load(*repo, "", "libaudit") })
+	if root != nil {
+		runGen("consts", []string{"Consts"}, func() { genConsts(root) })
+		for _, g := range generators {
+			g(*repo, root)
+		}
 	}
 
 	// remove stale generated files
@@ -226,7 +266,12 @@ func main() {
 		return nil
 	})
 	sort.Strings(changed)
-	fmt.Printf("extract: %d generated modules, %d changed %v\n", len(emitted), len(changed), changed)
+	fj, _ := json.MarshalIndent(failures, "", " ")
+	if failures == nil {
+		fj = []byte("[]")
+	}
+	os.WriteFile(filepath.Join(outDir, "translator_failures.json"), fj, 0o644)
+	fmt.Printf("extract: %d generated modules, %d changed %v, %d generator failures\n", len(emitted), len(changed), changed, len(failures))
 }
 
 func genConsts(root *pkg) {
